@@ -89,3 +89,19 @@ func TestVerifWitnessC18DepthZeroFolded(t *testing.T) {
 		t.Errorf("depth 0: header lines longer than 78 characters that are not a single token:\n%s", strings.Join(bad, "\n"))
 	}
 }
+
+func TestVerifWitnessC18FileDescriptionUnfolded(t *testing.T) {
+	m := NewMsg()
+	_ = m.From("a@b.c")
+	_ = m.To("d@e.f")
+	m.Subject("s")
+	m.SetBodyString(TypeTextPlain, "hello")
+	_ = m.AttachReader("x.txt", strings.NewReader("content"), WithFileDescription(strings.Repeat("word ", 30)+"end"))
+	out := &bytes.Buffer{}
+	if _, err := m.WriteTo(out); err != nil {
+		t.Fatal(err)
+	}
+	if bad := verifLongHeaderLines(t, out.String()); len(bad) > 0 {
+		t.Errorf("header lines longer than 78 characters that are not a single token:\n%s", strings.Join(bad, "\n"))
+	}
+}
